@@ -30,6 +30,11 @@ Proof.
 Qed.
 Lemma bl_mask_even_0_0 dx lam z : bl_mask_0_0 dx lam (- z) = bl_mask_0_0 dx lam z.
 Proof. unfold bl_mask_0_0. sqrt_canon. reflexivity. Qed.
+Lemma bl_radnn_0_0 dx lam z : 0 < lam -> 0 < dx -> lam * lam <= 2 * (dx * dx) -> 0 <= bl_rad_0_0 dx lam z.
+Proof.
+  intros Hl Hd Hg. replace (bl_rad_0_0 dx lam z) with (1 / (lam ^ 2) - (((- (7 / 16)) / dx) ^ 2 + ((- (5 / 12)) / dx) ^ 2)) by (unfold bl_rad_0_0; field; lra).
+  apply rad_bl_nonneg; try assumption; lra.
+Qed.
 Lemma bl_pix_0_1 dx lam z : (bl_re_0_1 dx lam z, bl_im_0_1 dx lam z) = Cmult (RtoC (mask01 (bl_mask_0_1 dx lam z))) (Cexpi (bl_ph_0_1 dx lam z)).
 Proof. rewrite <- masked_pixel. unfold bl_re_0_1, bl_im_0_1, mask01. fold (bl_mask_0_1 dx lam z). fold (bl_ph_0_1 dx lam z). f_equal; destruct (bl_mask_0_1 dx lam z); ring. Qed.
 Lemma bl_add_0_1 dx lam z1 z2 : bl_ph_0_1 dx lam (z1 + z2) = bl_ph_0_1 dx lam z1 + bl_ph_0_1 dx lam z2.
@@ -47,6 +52,11 @@ Proof.
 Qed.
 Lemma bl_mask_even_0_1 dx lam z : bl_mask_0_1 dx lam (- z) = bl_mask_0_1 dx lam z.
 Proof. unfold bl_mask_0_1. sqrt_canon. reflexivity. Qed.
+Lemma bl_radnn_0_1 dx lam z : 0 < lam -> 0 < dx -> lam * lam <= 2 * (dx * dx) -> 0 <= bl_rad_0_1 dx lam z.
+Proof.
+  intros Hl Hd Hg. replace (bl_rad_0_1 dx lam z) with (1 / (lam ^ 2) - (((- (7 / 48)) / dx) ^ 2 + ((- (5 / 12)) / dx) ^ 2)) by (unfold bl_rad_0_1; field; lra).
+  apply rad_bl_nonneg; try assumption; lra.
+Qed.
 Lemma bl_pix_0_2 dx lam z : (bl_re_0_2 dx lam z, bl_im_0_2 dx lam z) = Cmult (RtoC (mask01 (bl_mask_0_2 dx lam z))) (Cexpi (bl_ph_0_2 dx lam z)).
 Proof. rewrite <- masked_pixel. unfold bl_re_0_2, bl_im_0_2, mask01. fold (bl_mask_0_2 dx lam z). fold (bl_ph_0_2 dx lam z). f_equal; destruct (bl_mask_0_2 dx lam z); ring. Qed.
 Lemma bl_add_0_2 dx lam z1 z2 : bl_ph_0_2 dx lam (z1 + z2) = bl_ph_0_2 dx lam z1 + bl_ph_0_2 dx lam z2.
@@ -64,6 +74,11 @@ Proof.
 Qed.
 Lemma bl_mask_even_0_2 dx lam z : bl_mask_0_2 dx lam (- z) = bl_mask_0_2 dx lam z.
 Proof. unfold bl_mask_0_2. sqrt_canon. reflexivity. Qed.
+Lemma bl_radnn_0_2 dx lam z : 0 < lam -> 0 < dx -> lam * lam <= 2 * (dx * dx) -> 0 <= bl_rad_0_2 dx lam z.
+Proof.
+  intros Hl Hd Hg. replace (bl_rad_0_2 dx lam z) with (1 / (lam ^ 2) - (((7 / 48) / dx) ^ 2 + ((- (5 / 12)) / dx) ^ 2)) by (unfold bl_rad_0_2; field; lra).
+  apply rad_bl_nonneg; try assumption; lra.
+Qed.
 Lemma bl_pix_0_3 dx lam z : (bl_re_0_3 dx lam z, bl_im_0_3 dx lam z) = Cmult (RtoC (mask01 (bl_mask_0_3 dx lam z))) (Cexpi (bl_ph_0_3 dx lam z)).
 Proof. rewrite <- masked_pixel. unfold bl_re_0_3, bl_im_0_3, mask01. fold (bl_mask_0_3 dx lam z). fold (bl_ph_0_3 dx lam z). f_equal; destruct (bl_mask_0_3 dx lam z); ring. Qed.
 Lemma bl_add_0_3 dx lam z1 z2 : bl_ph_0_3 dx lam (z1 + z2) = bl_ph_0_3 dx lam z1 + bl_ph_0_3 dx lam z2.
@@ -81,6 +96,11 @@ Proof.
 Qed.
 Lemma bl_mask_even_0_3 dx lam z : bl_mask_0_3 dx lam (- z) = bl_mask_0_3 dx lam z.
 Proof. unfold bl_mask_0_3. sqrt_canon. reflexivity. Qed.
+Lemma bl_radnn_0_3 dx lam z : 0 < lam -> 0 < dx -> lam * lam <= 2 * (dx * dx) -> 0 <= bl_rad_0_3 dx lam z.
+Proof.
+  intros Hl Hd Hg. replace (bl_rad_0_3 dx lam z) with (1 / (lam ^ 2) - (((7 / 16) / dx) ^ 2 + ((- (5 / 12)) / dx) ^ 2)) by (unfold bl_rad_0_3; field; lra).
+  apply rad_bl_nonneg; try assumption; lra.
+Qed.
 Lemma bl_pix_1_0 dx lam z : (bl_re_1_0 dx lam z, bl_im_1_0 dx lam z) = Cmult (RtoC (mask01 (bl_mask_1_0 dx lam z))) (Cexpi (bl_ph_1_0 dx lam z)).
 Proof. rewrite <- masked_pixel. unfold bl_re_1_0, bl_im_1_0, mask01. fold (bl_mask_1_0 dx lam z). fold (bl_ph_1_0 dx lam z). f_equal; destruct (bl_mask_1_0 dx lam z); ring. Qed.
 Lemma bl_add_1_0 dx lam z1 z2 : bl_ph_1_0 dx lam (z1 + z2) = bl_ph_1_0 dx lam z1 + bl_ph_1_0 dx lam z2.
@@ -98,6 +118,11 @@ Proof.
 Qed.
 Lemma bl_mask_even_1_0 dx lam z : bl_mask_1_0 dx lam (- z) = bl_mask_1_0 dx lam z.
 Proof. unfold bl_mask_1_0. sqrt_canon. reflexivity. Qed.
+Lemma bl_radnn_1_0 dx lam z : 0 < lam -> 0 < dx -> lam * lam <= 2 * (dx * dx) -> 0 <= bl_rad_1_0 dx lam z.
+Proof.
+  intros Hl Hd Hg. replace (bl_rad_1_0 dx lam z) with (1 / (lam ^ 2) - (((- (7 / 16)) / dx) ^ 2 + ((0 / 1) / dx) ^ 2)) by (unfold bl_rad_1_0; field; lra).
+  apply rad_bl_nonneg; try assumption; lra.
+Qed.
 Lemma bl_pix_1_1 dx lam z : (bl_re_1_1 dx lam z, bl_im_1_1 dx lam z) = Cmult (RtoC (mask01 (bl_mask_1_1 dx lam z))) (Cexpi (bl_ph_1_1 dx lam z)).
 Proof. rewrite <- masked_pixel. unfold bl_re_1_1, bl_im_1_1, mask01. fold (bl_mask_1_1 dx lam z). fold (bl_ph_1_1 dx lam z). f_equal; destruct (bl_mask_1_1 dx lam z); ring. Qed.
 Lemma bl_add_1_1 dx lam z1 z2 : bl_ph_1_1 dx lam (z1 + z2) = bl_ph_1_1 dx lam z1 + bl_ph_1_1 dx lam z2.
@@ -115,6 +140,11 @@ Proof.
 Qed.
 Lemma bl_mask_even_1_1 dx lam z : bl_mask_1_1 dx lam (- z) = bl_mask_1_1 dx lam z.
 Proof. unfold bl_mask_1_1. sqrt_canon. reflexivity. Qed.
+Lemma bl_radnn_1_1 dx lam z : 0 < lam -> 0 < dx -> lam * lam <= 2 * (dx * dx) -> 0 <= bl_rad_1_1 dx lam z.
+Proof.
+  intros Hl Hd Hg. replace (bl_rad_1_1 dx lam z) with (1 / (lam ^ 2) - (((- (7 / 48)) / dx) ^ 2 + ((0 / 1) / dx) ^ 2)) by (unfold bl_rad_1_1; field; lra).
+  apply rad_bl_nonneg; try assumption; lra.
+Qed.
 Lemma bl_pix_1_2 dx lam z : (bl_re_1_2 dx lam z, bl_im_1_2 dx lam z) = Cmult (RtoC (mask01 (bl_mask_1_2 dx lam z))) (Cexpi (bl_ph_1_2 dx lam z)).
 Proof. rewrite <- masked_pixel. unfold bl_re_1_2, bl_im_1_2, mask01. fold (bl_mask_1_2 dx lam z). fold (bl_ph_1_2 dx lam z). f_equal; destruct (bl_mask_1_2 dx lam z); ring. Qed.
 Lemma bl_add_1_2 dx lam z1 z2 : bl_ph_1_2 dx lam (z1 + z2) = bl_ph_1_2 dx lam z1 + bl_ph_1_2 dx lam z2.
@@ -132,6 +162,11 @@ Proof.
 Qed.
 Lemma bl_mask_even_1_2 dx lam z : bl_mask_1_2 dx lam (- z) = bl_mask_1_2 dx lam z.
 Proof. unfold bl_mask_1_2. sqrt_canon. reflexivity. Qed.
+Lemma bl_radnn_1_2 dx lam z : 0 < lam -> 0 < dx -> lam * lam <= 2 * (dx * dx) -> 0 <= bl_rad_1_2 dx lam z.
+Proof.
+  intros Hl Hd Hg. replace (bl_rad_1_2 dx lam z) with (1 / (lam ^ 2) - (((7 / 48) / dx) ^ 2 + ((0 / 1) / dx) ^ 2)) by (unfold bl_rad_1_2; field; lra).
+  apply rad_bl_nonneg; try assumption; lra.
+Qed.
 Lemma bl_pix_1_3 dx lam z : (bl_re_1_3 dx lam z, bl_im_1_3 dx lam z) = Cmult (RtoC (mask01 (bl_mask_1_3 dx lam z))) (Cexpi (bl_ph_1_3 dx lam z)).
 Proof. rewrite <- masked_pixel. unfold bl_re_1_3, bl_im_1_3, mask01. fold (bl_mask_1_3 dx lam z). fold (bl_ph_1_3 dx lam z). f_equal; destruct (bl_mask_1_3 dx lam z); ring. Qed.
 Lemma bl_add_1_3 dx lam z1 z2 : bl_ph_1_3 dx lam (z1 + z2) = bl_ph_1_3 dx lam z1 + bl_ph_1_3 dx lam z2.
@@ -149,6 +184,11 @@ Proof.
 Qed.
 Lemma bl_mask_even_1_3 dx lam z : bl_mask_1_3 dx lam (- z) = bl_mask_1_3 dx lam z.
 Proof. unfold bl_mask_1_3. sqrt_canon. reflexivity. Qed.
+Lemma bl_radnn_1_3 dx lam z : 0 < lam -> 0 < dx -> lam * lam <= 2 * (dx * dx) -> 0 <= bl_rad_1_3 dx lam z.
+Proof.
+  intros Hl Hd Hg. replace (bl_rad_1_3 dx lam z) with (1 / (lam ^ 2) - (((7 / 16) / dx) ^ 2 + ((0 / 1) / dx) ^ 2)) by (unfold bl_rad_1_3; field; lra).
+  apply rad_bl_nonneg; try assumption; lra.
+Qed.
 Lemma bl_pix_2_0 dx lam z : (bl_re_2_0 dx lam z, bl_im_2_0 dx lam z) = Cmult (RtoC (mask01 (bl_mask_2_0 dx lam z))) (Cexpi (bl_ph_2_0 dx lam z)).
 Proof. rewrite <- masked_pixel. unfold bl_re_2_0, bl_im_2_0, mask01. fold (bl_mask_2_0 dx lam z). fold (bl_ph_2_0 dx lam z). f_equal; destruct (bl_mask_2_0 dx lam z); ring. Qed.
 Lemma bl_add_2_0 dx lam z1 z2 : bl_ph_2_0 dx lam (z1 + z2) = bl_ph_2_0 dx lam z1 + bl_ph_2_0 dx lam z2.
@@ -166,6 +206,11 @@ Proof.
 Qed.
 Lemma bl_mask_even_2_0 dx lam z : bl_mask_2_0 dx lam (- z) = bl_mask_2_0 dx lam z.
 Proof. unfold bl_mask_2_0. sqrt_canon. reflexivity. Qed.
+Lemma bl_radnn_2_0 dx lam z : 0 < lam -> 0 < dx -> lam * lam <= 2 * (dx * dx) -> 0 <= bl_rad_2_0 dx lam z.
+Proof.
+  intros Hl Hd Hg. replace (bl_rad_2_0 dx lam z) with (1 / (lam ^ 2) - (((- (7 / 16)) / dx) ^ 2 + ((5 / 12) / dx) ^ 2)) by (unfold bl_rad_2_0; field; lra).
+  apply rad_bl_nonneg; try assumption; lra.
+Qed.
 Lemma bl_pix_2_1 dx lam z : (bl_re_2_1 dx lam z, bl_im_2_1 dx lam z) = Cmult (RtoC (mask01 (bl_mask_2_1 dx lam z))) (Cexpi (bl_ph_2_1 dx lam z)).
 Proof. rewrite <- masked_pixel. unfold bl_re_2_1, bl_im_2_1, mask01. fold (bl_mask_2_1 dx lam z). fold (bl_ph_2_1 dx lam z). f_equal; destruct (bl_mask_2_1 dx lam z); ring. Qed.
 Lemma bl_add_2_1 dx lam z1 z2 : bl_ph_2_1 dx lam (z1 + z2) = bl_ph_2_1 dx lam z1 + bl_ph_2_1 dx lam z2.
@@ -183,6 +228,11 @@ Proof.
 Qed.
 Lemma bl_mask_even_2_1 dx lam z : bl_mask_2_1 dx lam (- z) = bl_mask_2_1 dx lam z.
 Proof. unfold bl_mask_2_1. sqrt_canon. reflexivity. Qed.
+Lemma bl_radnn_2_1 dx lam z : 0 < lam -> 0 < dx -> lam * lam <= 2 * (dx * dx) -> 0 <= bl_rad_2_1 dx lam z.
+Proof.
+  intros Hl Hd Hg. replace (bl_rad_2_1 dx lam z) with (1 / (lam ^ 2) - (((- (7 / 48)) / dx) ^ 2 + ((5 / 12) / dx) ^ 2)) by (unfold bl_rad_2_1; field; lra).
+  apply rad_bl_nonneg; try assumption; lra.
+Qed.
 Lemma bl_pix_2_2 dx lam z : (bl_re_2_2 dx lam z, bl_im_2_2 dx lam z) = Cmult (RtoC (mask01 (bl_mask_2_2 dx lam z))) (Cexpi (bl_ph_2_2 dx lam z)).
 Proof. rewrite <- masked_pixel. unfold bl_re_2_2, bl_im_2_2, mask01. fold (bl_mask_2_2 dx lam z). fold (bl_ph_2_2 dx lam z). f_equal; destruct (bl_mask_2_2 dx lam z); ring. Qed.
 Lemma bl_add_2_2 dx lam z1 z2 : bl_ph_2_2 dx lam (z1 + z2) = bl_ph_2_2 dx lam z1 + bl_ph_2_2 dx lam z2.
@@ -200,6 +250,11 @@ Proof.
 Qed.
 Lemma bl_mask_even_2_2 dx lam z : bl_mask_2_2 dx lam (- z) = bl_mask_2_2 dx lam z.
 Proof. unfold bl_mask_2_2. sqrt_canon. reflexivity. Qed.
+Lemma bl_radnn_2_2 dx lam z : 0 < lam -> 0 < dx -> lam * lam <= 2 * (dx * dx) -> 0 <= bl_rad_2_2 dx lam z.
+Proof.
+  intros Hl Hd Hg. replace (bl_rad_2_2 dx lam z) with (1 / (lam ^ 2) - (((7 / 48) / dx) ^ 2 + ((5 / 12) / dx) ^ 2)) by (unfold bl_rad_2_2; field; lra).
+  apply rad_bl_nonneg; try assumption; lra.
+Qed.
 Lemma bl_pix_2_3 dx lam z : (bl_re_2_3 dx lam z, bl_im_2_3 dx lam z) = Cmult (RtoC (mask01 (bl_mask_2_3 dx lam z))) (Cexpi (bl_ph_2_3 dx lam z)).
 Proof. rewrite <- masked_pixel. unfold bl_re_2_3, bl_im_2_3, mask01. fold (bl_mask_2_3 dx lam z). fold (bl_ph_2_3 dx lam z). f_equal; destruct (bl_mask_2_3 dx lam z); ring. Qed.
 Lemma bl_add_2_3 dx lam z1 z2 : bl_ph_2_3 dx lam (z1 + z2) = bl_ph_2_3 dx lam z1 + bl_ph_2_3 dx lam z2.
@@ -217,3 +272,8 @@ Proof.
 Qed.
 Lemma bl_mask_even_2_3 dx lam z : bl_mask_2_3 dx lam (- z) = bl_mask_2_3 dx lam z.
 Proof. unfold bl_mask_2_3. sqrt_canon. reflexivity. Qed.
+Lemma bl_radnn_2_3 dx lam z : 0 < lam -> 0 < dx -> lam * lam <= 2 * (dx * dx) -> 0 <= bl_rad_2_3 dx lam z.
+Proof.
+  intros Hl Hd Hg. replace (bl_rad_2_3 dx lam z) with (1 / (lam ^ 2) - (((7 / 16) / dx) ^ 2 + ((5 / 12) / dx) ^ 2)) by (unfold bl_rad_2_3; field; lra).
+  apply rad_bl_nonneg; try assumption; lra.
+Qed.
